@@ -828,6 +828,7 @@ def iterate(world, ex, v):
             s = z3.SetAdd(s, x)
         ex.assume(S.qvset(v.n) == s)
         ex.assume(S.qv_ok(v.n) == z3.And([S.op(x) == S.SYMBOL for x in items]))
+        ex.ghost.setdefault("qvars_len", {})[v.n.get_id()] = n
         return items
     if isinstance(v, str):
         return list(v)
